@@ -453,15 +453,15 @@ class Facts:
                 return self.body(p)
         raise AnchorMissing("no impl of %s::%s for %s" % (trait, method, self_adt))
 
-    def inlined(self, body, depth=3, keep=()):
+    def inlined(self, body, depth=3, keep=(), only=None):
         """`body` with calls to small workspace-local functions / visible closures inlined (cached)"""
         from . import inline
         c = getattr(self, "_inl", None)
         if c is None:
             c = self._inl = {}
-        k = (body.path, depth, tuple(sorted(keep)))
+        k = (body.path, depth, tuple(sorted(keep)), tuple(only) if only else None)
         if k not in c:
-            c[k] = inline.inline_body(self, body, depth, keep=tuple(keep))
+            c[k] = inline.inline_body(self, body, depth, keep=tuple(keep), only=only)
         return c[k]
 
     def derived_bodies(self):
